@@ -172,6 +172,8 @@ let minigo_line l =
              let args = List.init n (fun _ -> atom ()) in SRetCall (nat_of_int cs, nat_of_int f, args)
     | "v" -> let k = next () in let x = var_of k in let ik = nexti () in let j = nexti () in
              SConv (x, nat_of_int ik, nat_of_int j)
+    | "V" -> let k = next () in let x = var_of k in let k2 = next () in let y = var_of k2 in
+             let ik = nexti () in let ik2 = nexti () in SConvI (x, y, nat_of_int ik, nat_of_int ik2)
     | "j" -> let cs = nexti () in let d = nexti () in
              let k = next () in let x = if k = "-" then None else Some (var_of k) in
              let k2 = next () in let xi = var_of k2 in
@@ -198,7 +200,14 @@ let minigo_line l =
       let n = nexti () in
       List.init n (fun _ -> let nm = nexti () in List.init nm (fun _ -> nat_of_int (nexti ())))
     end else [] in
-  let prog = { p_funcs = funcs; p_ginit = ginit; p_impls = impls } in
+  (* optional tail: S <ninterfaces> { <nmethods> arity* }* *)
+  let isigs =
+    if !pos < Array.length toks && toks.(!pos) = "S" then begin
+      let _ = next () in
+      let n = nexti () in
+      List.init n (fun _ -> let nm = nexti () in List.init nm (fun _ -> nat_of_int (nexti ())))
+    end else [] in
+  let prog = { p_funcs = funcs; p_ginit = ginit; p_impls = impls; p_isig = isigs } in
   let prod = function
     | PNil | PGuard (_, _, _) | PUng (_, _) -> "0,0" | PNever -> "1,0" | PStale -> "1,1"
     | PSite s -> Printf.sprintf "2,%d" (int_of_nat (enc s))
